@@ -4,6 +4,49 @@ from concurrent.futures import ThreadPoolExecutor
 from lib import *
 from props.c10 import cs, css, snap, diff_files, write_bam, PRE, index_fasta, plain_fasta, SEED_WRAPPER
 
+HERE = os.path.dirname(os.path.abspath(__file__))
+SITES = os.path.join(HERE, "c06_sites.json")
+
+
+# ====================================================================================================== static scan of order / state sites against the reviewed baseline
+def scan_sites(ctx, kinds=("order", "state")):
+    """re-scan the checked-out source (tools/scan_state.py) and compare with the reviewed baseline c06_sites.json: a site that is not in the baseline is an unreviewed
+       order / state site -> the obligation 'every site is reviewed' no longer checks; returns {"order": [...], "state": [...]} of new sites"""
+    tools = os.path.join(VERIF, "tools")
+    if tools not in sys.path: sys.path.insert(0, tools)
+    import scan_state
+    cur = scan_state.scan(REPO); base = json.load(open(SITES)); new = {"order": [], "state": []}
+    for kind in kinds:
+        bk = {scan_state.site_key(e): e for e in base[kind]}; ck = {scan_state.site_key(e): e for e in cur[kind]}
+        for k, e in ck.items():
+            if k not in bk: new[kind].append(dict(e, site=k))
+            elif e["count"] > bk[k]["count"]: new[kind].append(dict(e, site=k + "  (%d occurrences, %d reviewed)" % (e["count"], bk[k]["count"])))
+        gone = [k for k in bk if k not in ck]
+        if gone: ctx.notes.append("scan: %d reviewed %s site(s) no longer in the source: %s" % (len(gone), kind, "; ".join(gone)[:600]))
+        verdicts = {}
+        for k, e in bk.items():
+            if k in ck: verdicts[e["verdict"].split(":")[0]] = verdicts.get(e["verdict"].split(":")[0], 0) + 1
+        ctx.notes.append("scan: %d %s sites in %d files (%s not imported by isoquant.py, skipped), %d reviewed, %d NEW; reviewed by verdict: %s" %
+                         (len(ck), kind, len(cur["files"]), ", ".join(os.path.basename(x) for x in cur["not_imported"]), len(ck) - len(new[kind]), len(new[kind]),
+                          ", ".join("%s %d" % kv for kv in sorted(verdicts.items()))))
+        ctx.count(evaluations=len(ck), nontrivial=len(ck))
+        for e in new[kind]: ctx.notes.append("scan: NEW %s site (not in the reviewed baseline): %s @ lines %s" % (kind, e["site"], e.get("lines", "?")))
+        if new[kind]:
+            ctx.broken("scan:new-%s-site" % kind, "%d %s site(s) of the source are not in the reviewed baseline harness/props/c06_sites.json (file | function | what | expression @ lines): %s" %
+                       (len(new[kind]), kind, " ;; ".join("%s @ %s" % (e["site"], e.get("lines", "")) for e in new[kind])[:2500]), extra={"new_sites": new[kind]})
+    ctx.rule("static scan (tools/scan_state.py, Python ast, on the checked-out source): every place where a set / a container with set-derived order is iterated or order-observed "
+             "(for, comprehensions, list / tuple / enumerate / iter / zip / map / filter / sum / str, pop, min / max with key, join, unpacking, sorted / sort WITH their key, hash(), "
+             "file system enumeration) and every piece of process-wide state (class-level mutable attributes and assignments through the class, mutated module globals, args.<field> "
+             "assigned during processing, once-evaluated default arguments) must be in the reviewed baseline c06_sites.json; a new site breaks the obligation and switches the sweep to "
+             "the intensified search")
+    return new
+
+
+def scan_section(ctx, quick):
+    ctx.new_sites = {"order": [], "state": []}
+    ctx.new_sites = scan_sites(ctx)
+
+
 NAMES = ["1", "2", "10", "01", "X", "x", "a1", "a01", "A1", "b", "1b", "1_2", "", "M"]
 LINES = ["#h\n", "x\n", "# c\n", "\n", "y z\n", "#\n"]
 
@@ -197,7 +240,12 @@ def sweep(ctx, quick):
         data = {"generated": ["--bam", wbam, "--reference", os.path.join(wd, "genome.fa"), "--genedb", os.path.join(wd, "annotation.gtf"), "--read_group", "tag:RG"],
                 "bundled": ["--bam", b["bam"], "--reference", b["fasta"], "--genedb", b["gtf"], "--read_group", "file:%s:0:1" % b["groups"]]}
         common = ["--complete_genedb", "--data_type", "nanopore", "-p", "OUT", "--count_exons", "--sqanti_output", "--check_canonical", "--counts_format", "both"]
-        if quick:
+        intense = any(getattr(ctx, "new_sites", {}).get(k) for k in ("order", "state"))
+        if intense:
+            # an unreviewed order / state site: search harder for a concrete failing configuration (8 hash seeds, thread counts 1, 2, 3, 5, 16)
+            configs = [(1, 0, 0, 0), (1, 0, 0, 0)] + [(t, s, (ti + s) % 2, (s // 2 + ti) % 2) for ti, t in enumerate((1, 2, 3, 5, 16)) for s in range(8)]
+            ctx.notes.append("sweep intensified because of unreviewed sites: 5 thread counts x 8 hash seeds per data set")
+        elif quick:
             configs = [(1, 0, 0, 0), (1, 0, 0, 0)] + [(t, s, (ti + s) % 2, (s // 2 + ti) % 2) for ti, t in enumerate((1, 2, 5, 16)) for s in (0, 1, 2, 3)]
         else:
             configs = [(1, 0, 0, 0)] + [(t, s, hm, kt) for t in (1, 2, 5, 16) for s in (0, 1, 2, 3) for hm in (0, 1) for kt in (0, 1)] + [(3, 7, 0, 0), (16, 8, 1, 1)]
@@ -225,6 +273,7 @@ def sweep(ctx, quick):
             r = {"data": j["data"], "--threads": j["threads"], "PYTHONHASHSEED": j["hashseed"], "--high_memory": bool(j["hm"]), "--keep_tmp": bool(j["kt"]),
                  "arguments": [a.replace(root, "<scratch>") for a in j["args"]]}
             if j.get("seeded"): r["seeded"] = j["seeded"]
+            if intense: r["unreviewed sites found by the static scan"] = [e["site"] for k in ("order", "state") for e in ctx.new_sites.get(k, [])]
             r.update(kw); return r
         n_cmp = 0; n_multi = 0
         for dn in data:
@@ -264,13 +313,16 @@ def sweep(ctx, quick):
 def run(ctx):
     quick = ctx.tier == "quick"
     ctx.prepare("C06.v")
-    for section in (merge_unit, part_names, feature_counter, sweep):
+    for section in (scan_section, merge_unit, part_names, feature_counter, sweep):
         # one failing adapter must not keep the other sections (in particular the sweep) from looking for a concrete failing configuration
         try: section(ctx, quick)
         except Exception: ctx.broken("harness:%s" % section.__name__, "exception in section %s:\n%s" % (section.__name__, traceback.format_exc()[-3000:]))
     ctx.assume.append("PARTIAL: that no set other than the read-group set (C09, repaired) and the gene set of a feature row is enumerated on an output path rests on a scan of every set / dict "
                       "iteration in src/ and on the hash-seed sweep, not on a theorem; likewise that the carried state of a worker process is exactly detected_known_isoforms, the two id "
                       "counters and the duplicate counter (log only) rests on the scan of class attributes / module globals and on the runs with pre-seeded state in C10")
+    ctx.assume.append("static scan: the set-likeness inference of tools/scan_state.py is syntactic with simple local / by-name inter-procedural inference (it can miss a set that reaches a "
+                      "loop through an untyped parameter or a library call), and the verdict of every site in c06_sites.json is a reviewed judgement made by reading the site, not a theorem; "
+                      "what is checked on every run is that no order / state site of the current source is unreviewed")
     ctx.assume.append("the schedule theorem is about the model `run schedule = collect (workers)`: ProcessPoolExecutor.map(chunksize=1) returns results in submission order and a worker runs "
                       "its tasks one after the other (concurrent.futures semantics are trusted); worker processes are forked from the main process")
     ctx.assume.append("aux/ (kept by --keep_tmp; its save files contain the schedule-dependent assignment ids) and isoquant.log are not final files; .gz files are compared after decompression; "
